@@ -2,6 +2,7 @@
    Shared by C02, C05, C09, C10. *)
 From CV Require Import Model.Base Model.Events Model.Contract Model.Attempt Model.AttemptSpec Check.Verdict.
 From CV Require Import Check.C11Check.
+From CV Require Proofs.ReviewP2.
 
 Record acase := mk_acase {
   ac_inputs : list attempt_in;                 (* the script, one entry per potential attempt *)
@@ -58,12 +59,18 @@ Definition budget (c : acase) : option N :=
 (* C02: every attempt's events form the canonical sequence; attempts do not interleave *)
 Definition c02_ok (c : acase) : bool :=
   forallb (fun g => wf_events (has_before c) (has_after c) (decl_of (first_input c)) (snd g)) (groups c)
-  && framed c.
+  && framed c
+  (* the outcome -> event mapping of the property text (Proofs/ReviewP2.v, module RB: no match -> Skipped, ambiguous ->
+     Failed, panic / World failure -> Failed with the payload, stop after the first non-passed step, failure before the
+     after-hook events), for the k-th attempt against the k-th entry of the script *)
+  && forallb (fun ig => ReviewP2.RB.events_match_outcomes (fst ig) (snd (snd ig))) (combine (ac_inputs c) (groups c)).
 
 (* C09: per attempt the callback log obeys the World / hook contract; no World instance is shared *)
 Definition c09_ok_case (c : acase) : bool :=
   Nat.eqb (length (groups c)) (length (ac_calls c))
   && forallb (fun gc => c09_ok (has_before c) (has_after c) (snd (fst gc)) (snd gc)) (combine (groups c) (ac_calls c))
+  (* the step callbacks are those of the steps the events report as executed, in order (ReviewP2, module RC) *)
+  && forallb (fun gc => ReviewP2.RC.calls_match_events (snd (fst gc)) (map fst (snd gc))) (combine (groups c) (ac_calls c))
   && nodup_N (flat_map (fun cs => match flat_map (fun oc => match snd oc with Some w => [w] | None => [] end) cs with
                                   | w :: _ => [w] | [] => [] end) (ac_calls c)).
 
